@@ -203,6 +203,7 @@ Viol(a, o, act, a2, o2) ==
   IF act.res = "crash" THEN {}               \* the process is dead: nothing to observe
   ELSE IF act.op = "Recover" THEN RecoverViol(act, o2)
   ELSE IF act.res = "panic" THEN {"HandlerPanicked"}
+  ELSE IF act.res = "hang" THEN {"HandlerHung"}    \* the handler did not return within the step bound
   ELSE C01Viol(o2) \cup C02Viol(o, act, o2) \cup C19Viol(o, act, o2)
 
 EndViol(a, o) == {}
